@@ -14,26 +14,26 @@ import (
 type family func(o *Out, r R, tier string)
 
 var props = map[string][]family{
-	"C19": {famAll},
-	"C14": {famCheck},
-	"C01": {famTree},
-	"C03": {famServeWant("c03")},
-	"C11": {famServeWant("c11")},
-	"C16": {famServeWant("c16")},
-	"C04": {famConfig},
-	"C05": {famConfig},
-	"C10": {famPair},
-	"C02": {famIntent},
-	"C08": {famHistWant("c08")},
-	"C09": {famHistWant("c09")},
-	"C06": {famRoundtrip},
-	"C13": {famPattern, famNetip},
-	"C15": {famTwins},
-	"C07": {famConc},
+	"C19":  {famAll},
+	"C14":  {famCheck},
+	"C01":  {famTree},
+	"C03":  {famServeWant("c03")},
+	"C11":  {famServeWant("c11")},
+	"C16":  {famServeWant("c16")},
+	"C04":  {famConfig},
+	"C05":  {famConfig},
+	"C10":  {famPair},
+	"C02":  {famIntent},
+	"C08":  {famHistWant("c08")},
+	"C09":  {famHistWant("c09")},
+	"C06":  {famRoundtrip},
+	"C13":  {famPattern, famNetip},
+	"C15":  {famTwins},
+	"C07":  {famConc},
 	"C07R": {famStress},
-	"C12": {famAlias},
-	"C17": {famPanic, famSplit},
-	"C18": {famAlloc},
+	"C12":  {famAlias},
+	"C17":  {famPanic, famSplit},
+	"C18":  {famAlloc},
 }
 
 func main() {
